@@ -16,7 +16,9 @@ for d in sorted(glob.glob('/verif/seeded/C*-*m*'), key=key):
     det = ', '.join(m['detected_by_quick_tier_of']) or '-'
     h = m.get('history', '')
     when = 'as first built' if (not h or h.startswith('detected by the property')) else 'after strengthening'
-    if m.get('not_detected_by'):
+    if not m['detected_by_quick_tier_of']:
+        when = 'NOT detected (see 15.5)'
+    elif m.get('not_detected_by'):
         when += ' (not by ' + ', '.join(m['not_detected_by']) + ')'
     rows.append(f"| {m['id']} | {title} | {files} | {det} | {when} |")
 table = "| change | what it does | file | caught by quick tier of | when |\n|--------|--------------|------|-------------------------|------|\n" + '\n'.join(rows)
